@@ -22,6 +22,7 @@ func main() {
 	replay := flag.String("replay", "", "replay file")
 	budget := flag.Duration("budget", 0, "internal deadline (0 = tier default)")
 	dump := flag.String("dump", "", "debug: dump atoms of package")
+	out := flag.String("out", "", "directory for evidence/ and replays/ (default: verif dir)")
 	flag.Parse()
 	if *dump != "" {
 		p := core.PkgByName(*dump)
@@ -64,6 +65,7 @@ func main() {
 		os.Exit(2)
 	}
 	c := &core.Ctx{ID: *prop, Tier: *tier, Seed: *seed, VerifDir: *verif, RepoDir: *repo, R: core.NewReporter(*prop, *tier, *seed, *verif)}
+	c.R.OutDir = *out
 	d := *budget
 	if d == 0 {
 		d = 8 * time.Minute
